@@ -186,6 +186,19 @@ pub fn run(index: usize, b: &Behaviour, enc: EncImpl, seed: u64, perturb: bool) 
             let pos = rng.random_range(2..r.len());
             r[pos] ^= 1 << rng.random_range(0..8);
           }
+          "reflect" => {
+            // a record sealed by the receiver itself (its next one) takes the place of record i
+            let mut fb = FrameBatch::new();
+            fb.push(Msg::from_vec(b"reflected-own-record".to_vec()));
+            match bb.eng.frame_batch(&[fb]) {
+              Ok(r) => chan[i] = r.to_vec(),
+              Err(_) => {
+                let r = &mut chan[i];
+                let pos = rng.random_range(2..r.len());
+                r[pos] ^= 1;
+              }
+            }
+          }
           "drop" => {
             chan.remove(i);
           }
